@@ -7,8 +7,8 @@ from .costream import cfield, cupvar
 
 PROPERTY = "C13"
 LEVEL = "other"
-CONFIGS_QUICK = ["std"]
-CONFIGS_THOROUGH = ["std", "alloc"]
+CONFIGS_QUICK = ["std", "std-rel"]
+CONFIGS_THOROUGH = ["std", "alloc", "std-rel", "alloc-rel"]
 EXPLANATION = (
     "Path rules on the (pre-borrowck, yield-explicit) MIR of the async bodies behind for_each: (BP) ForEachConsumer::send pushes a "
     "work future only through the exit edge `count.load() < limit` of its back-pressure loop, whose body awaits group.next(); on "
